@@ -12,7 +12,7 @@ RULE = ("one child process per case. Every combination of enum-valued fields is 
         "(also with an empty resource name), followed by 2-8 entries (batch 0/1/5/1e6; args none/empty/short/long; attachments; inbound/outbound; clock advances; exits with and without error) "
         "and a health probe of all five managers (get_rules, load a valid rule for an unrelated resource, entry, exit, clear). Extra stream: hotspot rules with LRU capacity 1..3 under 15-30 "
         "entries over 5 parameter values. Sequence stream: per family and refusal clause, a loading call with the refused rule followed by another entry point with an accepted rule (all "
-        "pairs of entry points, both orders), then entries repeating one argument with clock advances. Non-trivial: every case (a rule is defined, validated by both sides, loaded and exercised); distinct = distinct op text.")
+        "pairs of entry points, both orders), then entries repeating one argument with clock advances. In-flight stream: accepted rules of every family replaced or cleared through every entry point while entries admitted under them (for breakers: the Half-Open probe) are in flight, exits afterwards. Non-trivial: every case (a rule is defined, validated by both sides, loaded and exercised); distinct = distinct op text.")
 NONTRIVIAL_TAGS = ["probe"]
 ASSUMPTIONS = ["a panic is observed by catch_unwind in a child process, a hang by a 10 s wall-clock limit per case under the virtual clock",
                "the harness is built with overflow checks on (the dev profile the repository's own tests use)"]
@@ -297,9 +297,55 @@ def sequence_cases(rng):
     return cases
 
 
+def inflight_cases(rng):
+    """accepted rules replaced or cleared while entries admitted under them are still in flight (for breakers: while the probe of a
+    Half-Open phase is in flight), through every entry point; the entries are exited afterwards (seed C12-d)"""
+    cases = []
+    variants = {
+        "flow": [("res=a calc=d ctl=r rel=c thr=5 ivl=1000", "res=a calc=d ctl=r rel=c thr=7 ivl=1000"),
+                 ("res=a calc=d ctl=t rel=c thr=5 ivl=1000 maxq=2000", "res=a calc=d ctl=t rel=c thr=5 ivl=1000 maxq=100"),
+                 ("res=a calc=w ctl=r rel=c thr=50 ivl=1000 period=3 cold=3", "res=a calc=w ctl=r rel=c thr=60 ivl=1000 period=3 cold=3")],
+        "br": [("res=a strat=c retry=1000 minreq=1 ivl=1000 buckets=2 thr=1", "res=a strat=c retry=1000 minreq=1 ivl=1000 buckets=2 thr=2"),
+               ("res=a strat=r retry=500 minreq=1 ivl=1000 thr=1/2", "res=a strat=r retry=700 minreq=1 ivl=1000 thr=1/2"),
+               ("res=a strat=s retry=500 minreq=1 ivl=2000 buckets=2 maxrt=5 thr=1/2", "res=a strat=s retry=500 minreq=1 ivl=1000 maxrt=5 thr=1/2")],
+        "hs": [("res=a metric=q ctl=r idx=0 key=- thr=2 dur=1 cap=0", "res=a metric=q ctl=r idx=0 key=- thr=3 dur=1 cap=0"),
+               ("res=a metric=c ctl=r idx=0 key=- thr=2 cap=0", "res=a metric=c ctl=r idx=0 key=- thr=3 cap=2"),
+               ("res=a metric=q ctl=t idx=0 key=- thr=2 dur=1 maxq=2000 cap=0", "res=a metric=q ctl=t idx=0 key=- thr=4 dur=1 maxq=2000 cap=0")],
+        "iso": [("res=a thr=2", "res=a thr=3")],
+        "sys": [("metric=conc strat=no thr=1000", "metric=conc strat=no thr=2000")],
+    }
+    for fam, pairs in variants.items():
+        seconds = [("all", ""), ("all", "x2")] + ([] if fam == "sys" else [("res", ""), ("res", "x2")]) + [("append", "x2")]
+        for (a, b) in pairs:
+            for (via2, ids2) in seconds:
+                ops = ["sys.total", "rule fam=%s id=x1 %s" % (fam, a), "rule fam=%s id=x2 %s" % (fam, b)]
+                ops.append("load fam=%s via=%s ids=x1" % (fam, rng.choice(["all", "append"])))
+                n = 1
+                if fam == "br":
+                    # trip the breaker, let the retry timeout pass: the next entry is the probe, and stays in flight
+                    for _ in range(2):
+                        ops += ["build res=a", "adv ms=20", "exit err=1"]
+                    ops += ["adv ms=1001", "build res=a"]
+                else:
+                    n = rng.randint(1, 3)
+                    for _ in range(n):
+                        ops.append("build res=a batch=1 args=x")
+                ops.append(("load fam=%s via=res res=a ids=%s" % (fam, ids2)) if via2 == "res" else ("load fam=%s via=%s ids=%s" % (fam, via2, ids2)))
+                if rng.random() < 0.5:
+                    ops.append("adv ms=%d" % rng.choice([1, 500, 1100]))
+                for _ in range(n):
+                    ops.append("exit err=%d" % rng.choice([0, 0, 1]))
+                ops += ["build res=a batch=1 args=x", "exit", "probe"]
+                cases.append(ops)
+    return cases
+
+
 def gen(rng, tier):
     k = 2 if tier == "quick" else 24
-    cases = clause_cases(rng) + sequence_cases(rng)
+    seq = sequence_cases(rng)
+    if tier == "quick":
+        seq = [c for c in seq if rng.random() < 0.45]       # every refusal clause still meets several entry-point pairs
+    cases = clause_cases(rng) + seq + inflight_cases(rng)
     for _ in range(k):
         for calc, ctl, rel in itertools.product("dwmc", "rtc", ["c", "a-seen", "a-unseen", "a-empty"]):
             cases.append(flow_case(rng, calc, ctl, rel))
